@@ -600,7 +600,8 @@ theorem wv_map_ackGlobal (cs : Links) :
   rw [ackGlobal_eq]
   cases h : live c
   · simp [h]
-  · simp [h]
+  · simp
+    exact h
 
 def Bounded (ws : WVec) : Prop := ∀ p ∈ ws, p.1 ≤ 60000
 
